@@ -197,7 +197,7 @@ func Compare(f plyref.File, m *modeling.Mesh, file []byte) *vh.Failure {
 }
 
 func TestC08(t *testing.T) {
-	vh.Drive(t, vh.Spec[Case]{Name: "reference-files", Quick: 60000, Thorough: 2500000, Gen: genCase, Run: runCase, Deadline: 20 * time.Second})
+	vh.Drive(t, vh.Spec[Case]{Name: "reference-files", Quick: 300000, Thorough: 2500000, Gen: genCase, Run: runCase, Deadline: 20 * time.Second})
 }
 
 func FuzzC08(f *testing.F) {
